@@ -90,7 +90,8 @@ check("C13", "model_checking",
       "text for local/public/secret keys of every backend (generated, boundary, fixture keys, non-reduced Ed25519 encodings), stable across "
       "clone and reparse; id values compare / hash as their 33 bytes; id strings of every body length 0..40 and with malformed type headers are "
       "offered to every backend and id kind. Key ids in use: the L2 deployment model Deploy.tla (verifier selects the key by the id in the "
-      "unverified footer; PASERK key distribution; network attacker) is model-checked (with 3 spec mutants and 3 reachability witnesses), "
+      "unverified footer; PASERK key distribution; expiry against a clock; services that demand their own audience; network attacker) is "
+      "model-checked (with 4 spec mutants and 5 reachability witnesses; TLAPS proof of the unbounded design in the thorough tier), "
       "TLC-generated behaviours of it are replayed through the real crates with a KeyId-indexed store, and Trace_Deploy validates every "
       "recorded step against the same actions.", TERM_NOTE,
       "TLA+ L1 spec (Construct) + TLC term generation + evaluation with independent primitives + TLC observation-set validation; TLA+ L2 spec "
